@@ -34,6 +34,11 @@ type Case struct {
 	// prefixes / suffixes of each other, differ only in case, carry dots,
 	// dashes and non-ASCII letters.
 	IDStyle int `json:"idStyle,omitempty"`
+	// CancelBuildAfter > 0: the instance is started with a context that does not
+	// descend from its construction context (bpmn.WithContext), and the
+	// construction context is cancelled after that many answers. The instance
+	// lives on the context it was started with: everything goes on as before.
+	CancelBuildAfter int `json:"cancelBuildAfter,omitempty"`
 	// Rank, if set, orders the pending set (by rank, then request sequence)
 	// instead of the node id; used to address the same logical task in two
 	// different lowerings of one program.
@@ -183,7 +188,7 @@ func RunLockstep(c *Case, pick func(n int) int, hk *Hooks) *Outcome {
 	if hk.NewInst != nil {
 		in, err = hk.NewInst(xml, c.Vars)
 	} else {
-		in, err = New(xml, Options{Vars: c.Vars})
+		in, err = New(xml, Options{Vars: c.Vars, SplitCtx: c.CancelBuildAfter > 0})
 	}
 	if err != nil {
 		out.Symptom, out.Detail = "construct", err.Error()+"\n"+xml
@@ -348,6 +353,10 @@ func RunLockstep(c *Case, pick func(n int) int, hk *Hooks) *Outcome {
 		}
 		doAnswer(tt, ans)
 		out.Answered++
+		if c.CancelBuildAfter > 0 && out.Answered == c.CancelBuildAfter {
+			// the construction context ends; the run context lives on
+			in.CancelBuild()
+		}
 		obs = m.Answer(pi, ans)
 		gs, qerr = in.Quiesce()
 		if qerr != nil {
